@@ -286,3 +286,315 @@ theorem inv_run {enc : Bytes → Bytes} {hash : Bytes → Nat} (evs : List Ev) (
   | cons e es ih => exact ih _ (inv_step h e)
 
 end Rustic.PackWriter
+
+namespace Rustic.PackWriter
+open Rustic.Pack
+open Rustic.Index (IndexPack)
+
+/-! ### completeness without faults: every written pack ends up in an index file -/
+
+/-- where a successfully written pack is accounted for -/
+def Accounted (s : St) (id : Nat) : Prop :=
+  (∃ t p, some p ∈ (s.lane t).done ∧ p.id = id) ∨ (∃ p ∈ s.indexer.packs, p.id = id) ∨
+    (∃ packs, Log.indexWrite packs true ∈ s.log ∧ ∃ p ∈ packs, p.id = id)
+
+structure Live (s : St) : Prop where
+  notFailed : ∀ t, (s.lane t).failed = false
+  doneSome : ∀ t, none ∉ (s.lane t).done
+  noFault : ∀ e ∈ s.log, (∀ id f, e ≠ .packWrite id f false) ∧ (∀ ps, e ≠ .indexWrite ps false)
+  acc : ∀ id file, Log.packWrite id file true ∈ s.log → Accounted s id
+
+theorem init_live : Live St.init :=
+  ⟨fun t => by cases t <;> rfl, fun t => by cases t <;> simp [St.init, St.lane], by simp [St.init], by simp [St.init]⟩
+
+/-- replacing a lane by one with the same `done`/`failed` (packer or queue changes only) -/
+theorem live_setLane {s : St} (h : Live s) (t : BlobType) (l : Lane) (hd : l.done = (s.lane t).done)
+    (hf : l.failed = (s.lane t).failed) : Live (s.setLane t l) := by
+  have hlane : ∀ t', ((s.setLane t l).lane t').done = (s.lane t').done ∧ ((s.setLane t l).lane t').failed = (s.lane t').failed := by
+    intro t'
+    simp only [lane_setLane]
+    split
+    · rename_i heq; subst heq; exact ⟨hd, hf⟩
+    · exact ⟨rfl, rfl⟩
+  refine ⟨fun t' => by rw [(hlane t').2]; exact h.notFailed t', fun t' => by rw [(hlane t').1]; exact h.doneSome t',
+    by simpa using h.noFault, ?_⟩
+  intro id file hm
+  rcases h.acc id file (by simpa using hm) with ⟨t', p, hp, hid⟩ | h2 | h3
+  · exact Or.inl ⟨t', p, by rw [(hlane t').1]; exact hp, hid⟩
+  · exact Or.inr (Or.inl (by simpa using h2))
+  · exact Or.inr (Or.inr (by simpa using h3))
+
+theorem live_step {enc : Bytes → Bytes} {hash : Bytes → Nat} {s : St} (h : Live s) (ev : Ev) (hev : ev.faultFree = true) :
+    Live (step enc hash s ev) := by
+  cases ev with
+  | add t data id ulen limit aged =>
+    simp only [step]
+    apply live_setLane h
+    · split <;> rfl
+    · split <;> rfl
+  | flush t =>
+    simp only [step]
+    split
+    · exact h
+    · exact live_setLane h t _ rfl rfl
+  | write t fail =>
+    have hfl : fail = false := by simpa [Ev.faultFree] using hev
+    subst hfl
+    simp only [step]
+    split
+    · exact h
+    · rename_i file blobs rest hch
+      simp only [Bool.false_eq_true, if_false]
+      refine ⟨?_, ?_, ?_, ?_⟩
+      · intro t'
+        simp only [lane_withLog', lane_setLane]
+        split
+        · rename_i heq; subst heq; exact h.notFailed t'
+        · exact h.notFailed t'
+      · intro t'
+        simp only [lane_withLog', lane_setLane]
+        split
+        · rename_i heq; subst heq
+          simp only [List.mem_append, List.mem_singleton, not_or]
+          exact ⟨h.doneSome t', by simp⟩
+        · exact h.doneSome t'
+      · intro e he
+        simp only [List.mem_append, List.mem_singleton] at he
+        rcases he with he | rfl
+        · exact h.noFault e he
+        · exact ⟨by simp, by simp⟩
+      · intro id f hm
+        simp only [List.mem_append, List.mem_singleton] at hm
+        rcases hm with hm | hm
+        · rcases h.acc id f hm with ⟨t', p, hp, hid⟩ | h2 | ⟨packs, hpk, hq⟩
+          · refine Or.inl ⟨t', p, ?_, hid⟩
+            simp only [lane_withLog', lane_setLane]
+            split
+            · rename_i heq; subst heq; simp [hp]
+            · exact hp
+          · exact Or.inr (Or.inl (by simpa using h2))
+          · exact Or.inr (Or.inr ⟨packs, by simp [hpk], hq⟩)
+        · simp only [Log.packWrite.injEq] at hm
+          obtain ⟨hid, _, _⟩ := hm
+          refine Or.inl ⟨t, { id := hash file, blobs := blobs, size := none }, ?_, hid.symm⟩
+          simp [lane_setLane]
+  | index t aged fail =>
+    have hfl : fail = false := by simpa [Ev.faultFree] using hev
+    subst hfl
+    simp only [step]
+    have hnf := h.notFailed t
+    simp only [hnf, Bool.false_eq_true, if_false]
+    split
+    · exact h
+    · rename_i rest hd
+      exact absurd (by rw [hd]; simp) (h.doneSome t)
+    · rename_i p rest hd
+      -- what `Indexer::add` does without a fault
+      have hadd : (s.indexer.add p aged false).2.2 = false ∧
+          ((s.indexer.add p aged false).2.1 = [.indexAdd p] ∧ (s.indexer.add p aged false).1.packs = s.indexer.packs ++ [p] ∨
+           (s.indexer.add p aged false).2.1 = [.indexAdd p, .indexWrite (s.indexer.packs ++ [p]) true] ∧
+             (s.indexer.add p aged false).1.packs = []) := by
+        unfold Indexer.add
+        simp only [Bool.false_eq_true, if_false]
+        split
+        · exact ⟨rfl, Or.inr ⟨rfl, rfl⟩⟩
+        · exact ⟨rfl, Or.inl ⟨rfl, rfl⟩⟩
+      obtain ⟨hfail, hcases⟩ := hadd
+      have hlog : ∀ e ∈ (s.indexer.add p aged false).2.1,
+          (∀ id f, e ≠ .packWrite id f false) ∧ (∀ ps, e ≠ .indexWrite ps false) := by
+        intro e he
+        rcases hcases with ⟨hl, _⟩ | ⟨hl, _⟩ <;> rw [hl] at he <;> simp at he <;> rcases he with rfl | rfl <;> simp
+      -- every pack that was in the indexer or is `p` is in the new indexer or in a new index file
+      have hmoved : ∀ q, (q ∈ s.indexer.packs ∨ q = p) →
+          q ∈ (s.indexer.add p aged false).1.packs ∨
+          ∃ packs, Log.indexWrite packs true ∈ (s.indexer.add p aged false).2.1 ∧ q ∈ packs := by
+        intro q hq
+        have hq' : q ∈ s.indexer.packs ++ [p] := by simpa using hq
+        rcases hcases with ⟨_, hp⟩ | ⟨hl, _⟩
+        · exact Or.inl (by rw [hp]; exact hq')
+        · exact Or.inr ⟨_, by rw [hl]; simp, hq'⟩
+      refine ⟨?_, ?_, ?_, ?_⟩
+      · intro t'
+        simp only [lane_withLog, lane_setLane]
+        split
+        · exact hfail
+        · exact h.notFailed t'
+      · intro t'
+        simp only [lane_withLog, lane_setLane]
+        split
+        · rename_i heq; subst heq
+          have := h.doneSome t'
+          rw [hd] at this
+          simpa using this
+        · exact h.doneSome t'
+      · intro e he
+        simp only [List.mem_append] at he
+        rcases he with he | he
+        · exact h.noFault e he
+        · exact hlog e he
+      · intro id f hm
+        simp only [List.mem_append] at hm
+        have hm' : Log.packWrite id f true ∈ s.log := by
+          rcases hm with hm | hm
+          · exact hm
+          · rcases hcases with ⟨hl, _⟩ | ⟨hl, _⟩ <;> rw [hl] at hm <;> simp at hm
+        have toIdx : ∀ q, (q ∈ s.indexer.packs ∨ q = p) → q.id = id →
+            Accounted { s.setLane t { s.lane t with done := rest, failed := (s.indexer.add p aged false).2.2 } with
+              indexer := (s.indexer.add p aged false).1, log := s.log ++ (s.indexer.add p aged false).2.1 } id := by
+          intro q hq hid
+          rcases hmoved q hq with h1 | ⟨packs, hpk, hqp⟩
+          · exact Or.inr (Or.inl ⟨q, h1, hid⟩)
+          · exact Or.inr (Or.inr ⟨packs, by simp [hpk], q, hqp, hid⟩)
+        rcases h.acc id f hm' with ⟨t', q, hq, hid⟩ | ⟨q, hq, hid⟩ | ⟨packs, hpk, hq⟩
+        · by_cases ht : t' = t
+          · subst ht
+            rw [hd] at hq
+            simp only [List.mem_cons, Option.some.injEq] at hq
+            rcases hq with rfl | hq
+            · exact toIdx q (Or.inr rfl) hid
+            · refine Or.inl ⟨t', q, ?_, hid⟩
+              simp [lane_withLog, lane_setLane, hq]
+          · refine Or.inl ⟨t', q, ?_, hid⟩
+            simp only [lane_withLog, lane_setLane, if_neg ht]
+            exact hq
+        · exact toIdx q (Or.inl hq) hid
+        · exact Or.inr (Or.inr ⟨packs, by simp [hpk], hq⟩)
+  | finalizeIndexer fail =>
+    have hfl : fail = false := by simpa [Ev.faultFree] using hev
+    subst hfl
+    simp only [step]
+    split
+    · exact h
+    · refine ⟨fun t => by simpa using h.notFailed t, fun t => by simpa using h.doneSome t, ?_, ?_⟩
+      · intro e he
+        simp only [List.mem_append, List.mem_singleton] at he
+        rcases he with he | rfl
+        · exact h.noFault e he
+        · exact ⟨by simp, by simp⟩
+      · intro id f hm
+        simp only [List.mem_append, List.mem_singleton] at hm
+        rcases hm with hm | hm
+        · rcases h.acc id f hm with ⟨t', q, hq, hid⟩ | h2 | ⟨packs, hpk, hq⟩
+          · exact Or.inl ⟨t', q, by simpa using hq, hid⟩
+          · exact Or.inr (Or.inl h2)
+          · exact Or.inr (Or.inr ⟨packs, by simp [hpk], hq⟩)
+        · cases hm
+
+theorem live_run {enc : Bytes → Bytes} {hash : Bytes → Nat} (evs : List Ev) (hev : ∀ e ∈ evs, e.faultFree = true)
+    (s : St) (h : Live s) : Live (run enc hash s evs) := by
+  induction evs generalizing s with
+  | nil => exact h
+  | cons e es ih =>
+    exact ih (fun e' he' => hev e' (List.mem_cons_of_mem _ he')) _ (live_step h e (hev e (List.mem_cons_self ..)))
+
+
+theorem write_queue {enc : Bytes → Bytes} {hash : Bytes → Nat} (s : St) (t : BlobType) :
+    ((step enc hash s (.write t false)).lane t).chan = (s.lane t).chan.tail ∧
+    ((step enc hash s (.write t false)).lane t).done.length =
+      (s.lane t).done.length + (if (s.lane t).chan = [] then 0 else 1) := by
+  simp only [step]
+  split
+  · rename_i hch; simp [hch]
+  · rename_i file blobs rest hch
+    simp [hch, lane_setLane]
+
+theorem index_queue {enc : Bytes → Bytes} {hash : Bytes → Nat} {s : St} (h : Live s) (t : BlobType) :
+    ((step enc hash s (.index t false false)).lane t).chan = (s.lane t).chan ∧
+    ((step enc hash s (.index t false false)).lane t).done = (s.lane t).done.tail := by
+  simp only [step]
+  simp only [h.notFailed t, Bool.false_eq_true, if_false]
+  split
+  · rename_i hd; simp [hd]
+  · rename_i rest hd
+    exact absurd (by rw [hd]; simp) (h.doneSome t)
+  · rename_i p rest hd
+    simp [hd, lane_setLane]
+
+/-- after enough rounds the actor's queues are empty (nothing failing) -/
+theorem drainLane_empties {enc : Bytes → Bytes} {hash : Bytes → Nat} (t : BlobType) :
+    ∀ (n : Nat) (s : St), Live s → (s.lane t).chan.length + (s.lane t).done.length ≤ n →
+      Live (drainLane enc hash t n s) ∧ ((drainLane enc hash t n s).lane t).chan = [] ∧
+        ((drainLane enc hash t n s).lane t).done = [] := by
+  intro n
+  induction n with
+  | zero =>
+    intro s h hn
+    simp only [drainLane]
+    refine ⟨h, ?_, ?_⟩ <;> apply List.eq_nil_of_length_eq_zero <;> omega
+  | succ n ih =>
+    intro s h hn
+    simp only [drainLane]
+    have h1 : Live (step enc hash s (.write t false)) := live_step h _ rfl
+    have h2 : Live (step enc hash (step enc hash s (.write t false)) (.index t false false)) := live_step h1 _ rfl
+    apply ih _ h2
+    obtain ⟨w1, w2⟩ := write_queue (enc := enc) (hash := hash) s t
+    obtain ⟨i1, i2⟩ := index_queue (enc := enc) (hash := hash) h1 t
+    rw [i1, i2, w1, List.length_tail, List.length_tail, w2]
+    by_cases hc : (s.lane t).chan = []
+    · simp only [hc, if_true, List.length_nil] at hn ⊢
+      omega
+    · have : 0 < (s.lane t).chan.length := List.length_pos_iff.mpr hc
+      simp only [hc, if_false]
+      omega
+
+theorem flush_other {enc : Bytes → Bytes} {hash : Bytes → Nat} (s : St) {t t' : BlobType} (h : t' ≠ t) :
+    (step enc hash s (.flush t)).lane t' = s.lane t' := by
+  simp only [step]; split <;> simp [lane_setLane, h]
+
+theorem write_other {enc : Bytes → Bytes} {hash : Bytes → Nat} (s : St) {t t' : BlobType} (h : t' ≠ t) (f : Bool) :
+    (step enc hash s (.write t f)).lane t' = s.lane t' := by
+  simp only [step]
+  split
+  · rfl
+  · split <;> simp [lane_setLane, h]
+
+theorem index_other {enc : Bytes → Bytes} {hash : Bytes → Nat} (s : St) {t t' : BlobType} (h : t' ≠ t) (a f : Bool) :
+    (step enc hash s (.index t a f)).lane t' = s.lane t' := by
+  simp only [step]
+  split
+  · rfl
+  · split <;> simp [lane_setLane, h]
+
+theorem drainLane_other {enc : Bytes → Bytes} {hash : Bytes → Nat} {t t' : BlobType} (h : t' ≠ t) :
+    ∀ (n : Nat) (s : St), (drainLane enc hash t n s).lane t' = s.lane t' := by
+  intro n
+  induction n with
+  | zero => intro s; rfl
+  | succ n ih => intro s; simp only [drainLane]; rw [ih, index_other _ h, write_other _ h]
+
+theorem finalizeIndexer_lane {enc : Bytes → Bytes} {hash : Bytes → Nat} (s : St) (f : Bool) (t : BlobType) :
+    (step enc hash s (.finalizeIndexer f)).lane t = s.lane t := by
+  simp only [step]; split <;> simp
+
+theorem finalizeAll_live {enc : Bytes → Bytes} {hash : Bytes → Nat} {s : St} (h : Live s) :
+    Live (finalizeAll enc hash s) ∧ ∀ t, ((finalizeAll enc hash s).lane t).done = [] := by
+  unfold finalizeAll
+  simp only
+  have h1 : Live (step enc hash s (.flush .data)) := live_step h _ rfl
+  obtain ⟨h2, _, d2⟩ := drainLane_empties (enc := enc) (hash := hash) .data _ _ h1 (Nat.le_refl _)
+  have h3 := live_step (enc := enc) (hash := hash) h2 (.flush .tree) rfl
+  obtain ⟨h4, _, d4⟩ := drainLane_empties (enc := enc) (hash := hash) .tree _ _ h3 (Nat.le_refl _)
+  refine ⟨live_step h4 _ rfl, ?_⟩
+  intro t
+  rw [finalizeIndexer_lane]
+  cases t with
+  | tree => exact d4
+  | data =>
+    -- the data lane is untouched by the tree lane's steps
+    rw [drainLane_other (by decide), flush_other _ (by decide)]
+    exact d2
+
+theorem finalizeIndexer_covers {enc : Bytes → Bytes} {hash : Bytes → Nat} (s : St) :
+    ∀ p ∈ (step enc hash s (.finalizeIndexer false)).indexer.packs,
+      ∃ packs, Log.indexWrite packs true ∈ (step enc hash s (.finalizeIndexer false)).log ∧ p ∈ packs := by
+  intro p hp
+  simp only [step] at hp ⊢
+  split at hp
+  · rename_i he
+    rw [List.isEmpty_iff] at he
+    rw [he] at hp; cases hp
+  · rename_i he
+    simp only [he, Bool.false_eq_true, if_false]
+    exact ⟨s.indexer.packs, by simp, hp⟩
+
+end Rustic.PackWriter
